@@ -4,6 +4,7 @@ import (
 	"fmt"
 	"math"
 	"math/big"
+	"math/bits"
 	"testing"
 
 	"verif/internal/h"
@@ -84,13 +85,14 @@ type limbPool struct {
 	q        uint64
 	n        int
 	sum      float64
+	cap      int
 	distinct map[uint64]struct{}
 }
 
 func newLimbPools(qs []uint64) []*limbPool {
 	out := make([]*limbPool, len(qs))
 	for i, q := range qs {
-		out[i] = &limbPool{q: q, distinct: map[uint64]struct{}{}}
+		out[i] = &limbPool{q: q, cap: 4096, distinct: map[uint64]struct{}{}}
 	}
 	return out
 }
@@ -100,7 +102,7 @@ func addLimbs(lp []*limbPool, limbs [][]uint64) {
 		for _, v := range limbs[i] {
 			lp[i].n++
 			lp[i].sum += float64(v)
-			if len(lp[i].distinct) < 4096 {
+			if len(lp[i].distinct) < lp[i].cap {
 				lp[i].distinct[v] = struct{}{}
 			}
 		}
@@ -108,7 +110,7 @@ func addLimbs(lp []*limbPool, limbs [][]uint64) {
 }
 
 // checkUniform: the mean of n words uniform in [0,q) is (q-1)/2 with standard error q/sqrt(12 n) (7 standard
-// errors allowed), and at least min(n,q,4096)/2 distinct values occur (expected >= 0.63 * min).
+// errors allowed), and at least min(n,q,cap)/2 distinct values occur (expected >= 0.63 * min).
 func checkUniform(lp []*limbPool, key, what string) error {
 	for i, l := range lp {
 		q := float64(l.q)
@@ -117,7 +119,7 @@ func checkUniform(lp []*limbPool, key, what string) error {
 		if math.Abs(mean-(q-1)/2) > 7*se {
 			return h.Failf(key+":mask-mean", "%s limb %d (q=%d): mean of %d words is %.6g, expected %.6g +- %.3g", what, i, l.q, l.n, mean, (q-1)/2, 7*se)
 		}
-		m := math.Min(math.Min(float64(l.n), q), 4096)
+		m := math.Min(math.Min(float64(l.n), q), float64(l.cap))
 		if float64(len(l.distinct)) < m/2 {
 			return h.Failf(key+":mask-degenerate", "%s limb %d (q=%d): only %d distinct values among %d words", what, i, l.q, len(l.distinct), l.n)
 		}
@@ -316,8 +318,13 @@ func runStat(c StatCase, rec *h.Rec) error {
 		rqp := params.RingQP().AtLevel(lq, lp)
 		ringQ := params.RingQ().AtLevel(lq)
 		qs := qpModuli(params, lq, lp)
-		errs := &pool{}
-		masks := newLimbPools(qs)
+		// one pool per component class (RNS group i, base-2 digit j): a defect confined to one digit or one group must not
+		// be diluted by the others
+		type cls struct{ i, j int }
+		errsIJ := map[cls]*pool{}
+		masksIJ := map[cls][]*limbPool{}
+		var order []cls
+		gens := 0
 		skOut := kgen.GenSecretKeyNew()
 		rec.Classf("levelQ=%s", levelClass(lq, params.MaxLevelQ()))
 		rec.Classf("levelP=%d/of%d", lp, params.MaxLevelP())
@@ -334,7 +341,8 @@ func runStat(c StatCase, rec *h.Rec) error {
 			group = 1
 		}
 
-		for errs.n < statSamples {
+		for gens*n < statSamples {
+			gens++
 			var gct *rlwe.GadgetCiphertext
 			var sIn ring.Poly        // NTT + Montgomery, Q limbs
 			var sDec *rlwe.SecretKey // the key the components are encrypted under
@@ -428,24 +436,39 @@ func runStat(c StatCase, rec *h.Rec) error {
 					if m := bigToFloat(h.InfNorm(e)); m > be {
 						return h.Failf(key+":error-bound", "component [%d][%d]: error coefficient %v exceeds the declared bound %v (levelQ=%d levelP=%d base2=%d)", i, j, m, be, lq, lp, c.Base2)
 					}
-					errs.add(e)
-					addLimbs(masks, qpLimbs(comp[1], lq, lp))
+					k := cls{i, j}
+					if errsIJ[k] == nil {
+						errsIJ[k] = &pool{}
+						masksIJ[k] = newLimbPools(qs)
+						for _, l := range masksIJ[k] {
+							l.cap = 1024
+						}
+						order = append(order, k)
+					}
+					errsIJ[k].add(e)
+					addLimbs(masksIJ[k], qpLimbs(comp[1], lq, lp))
 				}
 			}
 		}
-		if err := band(errs, c.Subject+" components", true, sigma); err != nil {
-			return err
+		for _, k := range order {
+			what := fmt.Sprintf("%s component [%d][%d] (levelQ=%d levelP=%d base2=%d)", c.Subject, k.i, k.j, lq, lp, c.Base2)
+			if err := band(errsIJ[k], what, true, sigma); err != nil {
+				return err
+			}
+			if err := checkUniform(masksIJ[k], key, what+" mask"); err != nil {
+				return err
+			}
 		}
-		if err := checkUniform(masks, key, "component[1]"); err != nil {
-			return err
-		}
+		rec.Classf("evk-classes=%s", map[bool]string{true: "1", false: ">1"}[len(order) == 1])
 		rec.NonTrivial(fmt.Sprintf("stat|%s|%s|lq=%s|lp=%d|b2=%v|compr=%v|gal=%d", c.Subject, specClass(c.Spec), levelClass(lq, params.MaxLevelQ()), lp, c.Base2 != 0, c.Compr, c.GalK))
 	}
 	return nil
 }
 
 func mulmod(a, b, q uint64) uint64 {
-	return new(big.Int).Mod(new(big.Int).Mul(h.BU(a), h.BU(b)), h.BU(q)).Uint64()
+	hi, lo := bits.Mul64(a%q, b%q)
+	_, r := bits.Div64(hi, lo, q)
+	return r
 }
 
 func submod(a, b, q uint64) uint64 {
